@@ -2,6 +2,7 @@ package c16
 
 import (
 	"bytes"
+	"flag"
 	"net/http"
 	"net/http/httptest"
 	"sync"
@@ -39,7 +40,21 @@ func fuzzServer(limit int64) (*server, error) {
 	return s, err
 }
 
+func fuzzing() bool {
+	for _, name := range []string{"test.fuzz", "test.fuzzworker"} {
+		if fl := flag.Lookup(name); fl != nil && fl.Value.String() != "" && fl.Value.String() != "false" {
+			return true
+		}
+	}
+	return false
+}
+
 func FuzzServerLimit(f *testing.F) {
+	if !fuzzing() {
+		// as a plain test the seed corpus adds nothing to the generated pass, and a
+		// failure here would not leave a replay file
+		f.Skip("seed corpus only runs under -fuzz")
+	}
 	bodies := [][]byte{{}, []byte("hello, world"), make([]byte, 300_000), BodySpec{Kind: "mixed", Size: 70_000, Seed: 7}.Bytes(), BodySpec{Kind: "periodic", Size: 140_000, Seed: 3, Period: 255}.Bytes()}
 	for i, enc := range supported {
 		for j, b := range bodies {
